@@ -26,6 +26,7 @@ import (
 	rbacv1 "k8s.io/api/rbac/v1"
 	extv1 "k8s.io/apiextensions-apiserver/pkg/apis/apiextensions/v1"
 	metav1 "k8s.io/apimachinery/pkg/apis/meta/v1"
+	"k8s.io/apimachinery/pkg/apis/meta/v1/unstructured"
 	"k8s.io/apimachinery/pkg/runtime"
 	"k8s.io/apimachinery/pkg/runtime/schema"
 	"k8s.io/apimachinery/pkg/types"
@@ -392,11 +393,36 @@ func (w *world) runProvider(in *input, out map[string]any) {
 	for i, m := range in.Members {
 		w.putRevision(fmt.Sprintf("provider-member%d-%d", i+1, i+1), m, nil, fmt.Sprintf("provider-member%d", i+1))
 	}
+	// one reconciler (and validator) for the earlier and the judged reconcile, as in the running RBAC manager
+	rec := &recorder{}
+	r := w.rolesReconciler(in, rec)
 	if in.Pre == "roles" {
 		// an earlier reconcile, when the revision requested nothing, created the roles
-		if _, err := w.rolesReconciler(in, &recorder{}).Reconcile(ctx, selfReq()); err != nil {
+		if _, err := r.Reconcile(ctx, selfReq()); err != nil {
 			panic(fmt.Sprintf("pre reconcile: %v", err))
 		}
+	}
+	if in.Pre == "wide" {
+		// an earlier reconcile granted these requests while the allow list allowed everything; the administrator has
+		// since edited the allow list (in place) down to in.Allow
+		k := simapi.Key{Group: rbacv1.GroupName, Kind: "ClusterRole", Name: allowName}
+		narrow, _, _ := unstructured.NestedSlice(w.s.Peek(k).Object, "rules")
+		w.s.Mutate(k, func(u *unstructured.Unstructured) {
+			_ = unstructured.SetNestedSlice(u.Object, []any{
+				map[string]any{"apiGroups": []any{"*"}, "resources": []any{"*"}, "verbs": []any{"*"}},
+				map[string]any{"nonResourceURLs": []any{"*"}, "verbs": []any{"*"}}}, "rules")
+		})
+		w.setRequests(reqs)
+		if _, err := r.Reconcile(ctx, selfReq()); err != nil {
+			panic(fmt.Sprintf("pre reconcile (wide allow list): %v", err))
+		}
+		w.s.Mutate(k, func(u *unstructured.Unstructured) {
+			if len(narrow) == 0 {
+				unstructured.RemoveNestedField(u.Object, "rules")
+				return
+			}
+			_ = unstructured.SetNestedSlice(u.Object, narrow, "rules")
+		})
 	}
 	if in.Mode == "noallow" {
 		w.s.Remove(simapi.Key{Group: rbacv1.GroupName, Kind: "ClusterRole", Name: allowName})
@@ -404,10 +430,10 @@ func (w *world) runProvider(in *input, out map[string]any) {
 	w.setRequests(reqs)
 	w.validate(in, out)
 
-	rec := &recorder{}
+	rec.warnings = 0
 	w.c.BeginReconcile()
 	w.rec = true
-	_, err := w.rolesReconciler(in, rec).Reconcile(ctx, selfReq())
+	_, err := r.Reconcile(ctx, selfReq())
 	w.rec = false
 	out["recErr"] = errClass(err)
 	out["rejEvents"] = rec.warnings
@@ -530,6 +556,54 @@ func runVector(in *input) map[string]any {
 	return out
 }
 
+// chain is the validator as the RBAC manager runs it: one instance for the life of the process, validating one
+// revision after the other while the administrator edits the allow-list ClusterRole in place (same object, same uid;
+// the API server keeps no generation for ClusterRoles).  Its answer must depend on the current allow list only.
+type chain struct {
+	w *world
+	v roles.PermissionRequestsValidator
+}
+
+func newChain() *chain {
+	w := newWorld()
+	return &chain{w: w, v: roles.NewClusterRoleBackedValidator(w.c, allowName)}
+}
+
+func (c *chain) validate(in *input) map[string]any {
+	out := emptyOut()
+	k := simapi.Key{Group: rbacv1.GroupName, Kind: "ClusterRole", Name: allowName}
+	if c.w.s.Peek(k) == nil {
+		c.w.putAllow(in)
+	} else {
+		rules := []any{}
+		for _, r := range policies(in.Allow) {
+			m, err := runtime.DefaultUnstructuredConverter.ToUnstructured(&r)
+			if err != nil {
+				panic(err)
+			}
+			rules = append(rules, m)
+		}
+		c.w.s.Mutate(k, func(u *unstructured.Unstructured) {
+			if len(rules) == 0 {
+				unstructured.RemoveNestedField(u.Object, "rules")
+				return
+			}
+			_ = unstructured.SetNestedSlice(u.Object, rules, "rules")
+		})
+	}
+	ctx := context.Background()
+	reqs := policies(in.Reqs)
+	rejected, err := c.v.ValidatePermissionRequests(ctx, reqs...)
+	out["err"] = errClass(err)
+	out["rejected"] = granular(rejected)
+	ex, err := roles.Expand(ctx, reqs...)
+	if err != nil {
+		panic(err)
+	}
+	out["expand"] = granular(ex)
+	return out
+}
+
 type summary struct {
 	Scenarios int            `json:"scenarios"`
 	Runs      int            `json:"runs"`
@@ -559,6 +633,7 @@ func main() {
 	}
 	sum := &summary{ByFamily: map[string]int{}, Counts: map[string]int{}}
 	seenFam := map[string]bool{}
+	ch := newChain()
 	for _, raw := range raws {
 		var sc struct {
 			ID    string          `json:"id"`
@@ -579,6 +654,17 @@ func main() {
 		tw.Boundary()
 		ev := map[string]any{"ev": "out", "scenario": sc.ID, "fam": in.Fam, "input": anyIn, "out": out}
 		tw.Emit(ev)
+		if strings.HasPrefix(in.Fam, "val") && in.Mode == "cr" {
+			// the same vector on the long-lived validator, after whatever it validated before
+			cout := ch.validate(&in)
+			tw.Boundary()
+			tw.Emit(map[string]any{"ev": "out", "scenario": sc.ID + "/chained", "fam": in.Fam, "input": anyIn, "out": cout})
+			sum.Runs++
+			sum.Counts["chained"]++
+			if fmt.Sprint(cout["rejected"]) != fmt.Sprint(out["rejected"]) || cout["err"] != out["err"] {
+				sum.Counts["chained:differs-from-fresh"]++
+			}
+		}
 		sum.Scenarios++
 		sum.Runs++
 		sum.ByFamily[in.Fam]++
